@@ -20,6 +20,7 @@ type defaultTables struct {
 	genName    string
 	gen        *ssa.Function
 	ids        []int
+	keys       []int // every constant key of the literal, recognised entry or not
 	aas        map[int]string
 	starts     map[int]string
 	pos        map[int]token.Pos
@@ -73,6 +74,7 @@ func readDefaultTables(c *Ctx) *defaultTables {
 			continue
 		}
 		id := int(e.Key.Int)
+		dt.keys = append(dt.keys, id)
 		if _, dup := dt.aas[id]; dup {
 			dt.problems = append(dt.problems, fmt.Sprintf("duplicate id %d", id))
 		}
@@ -92,6 +94,7 @@ func readDefaultTables(c *Ctx) *defaultTables {
 		dt.pos[id] = e.Pos
 	}
 	sort.Ints(dt.ids)
+	sort.Ints(dt.keys)
 	if dt.genName != "" {
 		name := dt.genName[strings.LastIndex(dt.genName, ".")+1:]
 		dt.gen = w.fn("transform/codon", name)
@@ -123,9 +126,10 @@ func ruleC06(c *Ctx) {
 		c.undecided("TABLE-NCBI", "tablemap:shape", dt.mapPos, pr)
 	}
 	want := ncbiIDs()
-	c.check(fmt.Sprint(want) == fmt.Sprint(dt.ids), "TABLE-NCBI", "idset", dt.mapPos,
-		fmt.Sprintf("table ids %v = NCBI's 25 published codes", dt.ids),
-		fmt.Sprintf("table ids %v differ from NCBI's %v", dt.ids, want))
+	// the key set is read from every constant key, whatever shape the entry's value has
+	c.check(fmt.Sprint(want) == fmt.Sprint(dt.keys), "TABLE-NCBI", "idset", dt.mapPos,
+		fmt.Sprintf("table ids %v = NCBI's 25 published codes", dt.keys),
+		fmt.Sprintf("table ids %v differ from NCBI's %v", dt.keys, want))
 	codons := allCodonsNCBI()
 	for _, code := range ncbiCodes {
 		aas, ok := dt.aas[code.id]
